@@ -20,7 +20,10 @@ def configure(rng, g):
     data_outs = [o for n in g["nodes"] for o in n.get("outputs", [])]
     if funcs and rng.random() < 0.45:
         g["entrypoints"] = rng.sample(funcs, rng.randint(1, min(2, len(funcs))))
-    if data_outs and rng.random() < 0.3:
+    g["pre_use"] = rng.random() < 0.5
+    if rng.random() < 0.08:
+        g["selected"] = []      # an explicitly empty default selection
+    elif data_outs and rng.random() < 0.3:
         g["selected"] = rng.sample(outs, rng.randint(1, min(3, len(outs)))) if rng.random() < 0.3 else rng.sample(data_outs, rng.randint(1, min(3, len(data_outs))))
     rc = {"error_handling": "continue", "max_iterations": 40, "runner": rng.choice(["sync", "async"]), "sched_seed": rng.randint(0, 10**6)}
     r = rng.random()
